@@ -616,7 +616,7 @@ impl World {
 	// -----------------------------------------------------------------------------------------
 	// channel opening (run to completion; monitors observe it like everything else)
 	// -----------------------------------------------------------------------------------------
-	pub fn open_channel(&mut self, a: usize, b: usize, value_sat: u64, push_msat: u64, override_cfg: Option<UserConfig>) -> Result<usize, String> {
+	pub fn open_channel(&mut self, a: usize, b: usize, value_sat: u64, push_msat: u64, override_cfg: Option<UserConfig>, chaos: bool) -> Result<usize, String> {
 		self.connect(a, b);
 		let idx = self.chans.len();
 		let uid = self.next_user_id;
@@ -627,6 +627,65 @@ impl World {
 		self.note(format!("OPEN channel {} between node{} and node{} value={} push_msat={}", idx, a, b, value_sat, push_msat));
 		self.pump(a);
 		let mut mined = false;
+		// chaotic phase: random interleaving of deliveries, completions, events, blocks and reconnects
+		if chaos {
+			for _round in 0..400 {
+				let pick = self.rng.below(16);
+				let n = if self.rng.chance(1, 2) { a } else { b };
+				match pick {
+					0..=5 => {
+						let (f, t) = if self.rng.chance(1, 2) { (a, b) } else { (b, a) };
+						self.deliver_one(f, t);
+					},
+					6 | 7 => {
+						let pend = self.nodes[n].persister.pending().len();
+						if pend > 0 {
+							let k = self.rng.below(pend as u64) as usize;
+							self.complete_update(n, k);
+						}
+					},
+					8 | 9 => {
+						self.process_events(n);
+					},
+					10 | 11 => {
+						self.relay_broadcasts();
+						let in_pool = self.chans[idx].funding.is_some() && self.chain.mempool.iter().any(|t| Some(t.compute_txid()) == self.chans[idx].funding_txid());
+						if in_pool || mined {
+							self.mine(1);
+							mined = true;
+						}
+					},
+					12 => {
+						let pend = self.nodes[n].mon.pending_operation_count();
+						if pend > 0 {
+							let k = 1 + self.rng.below(pend as u64) as usize;
+							self.flush_deferred(n, k);
+						}
+					},
+					13 => {
+						// unfunded channels are legitimately dropped on disconnect: only disturb funded ones
+						let funded = self.chans[idx].funding_txid().map(|t| self.chain.seen.contains(&t)).unwrap_or(false);
+						if funded && self.rng.chance(1, 3) {
+							self.note(format!("OPEN-CHAOS disconnect/reconnect node{} node{}", a, b));
+							self.disconnect(a, b);
+							self.connect(a, b);
+						}
+					},
+					_ => {
+						// (no timer ticks here: unaccepted inbound channels are legitimately dropped after a few ticks)
+						self.process_events(n);
+					},
+				}
+				let cid = self.chans[idx].chan_id();
+				if self.nodes[a].mgr.list_usable_channels().iter().any(|c| c.channel_id == cid) && self.nodes[b].mgr.list_usable_channels().iter().any(|c| c.channel_id == cid) && self.queue_len(a, b) == 0 && self.queue_len(b, a) == 0 {
+					break;
+				}
+				if self.chans[idx].closed {
+					return Err(format!("channel {} was closed while opening", idx));
+				}
+			}
+			self.connect(a, b);
+		}
 		for _round in 0..200 {
 			let mut progress = false;
 			for n in [a, b] {
